@@ -1773,6 +1773,36 @@ pid_t vk_waitpid(pid_t pid, int *status, int options)
   return r;
 }
 
+/* the rest of the wait family, expressed through vk_waitpid so that the child ledger sees them (a wait for "any child" is never the library's
+ * business: it has exactly one child per handle and must name it) */
+pid_t vk_wait(int *status) { return vk_waitpid(-1, status, 0); }
+pid_t vk_wait3(int *status, int options, void *ru) { (void) ru; return vk_waitpid(-1, status, options); }
+pid_t vk_wait4(pid_t pid, int *status, int options, void *ru) { (void) ru; return vk_waitpid(pid, status, options); }
+int vk_waitid(int idtype, unsigned id, void *info, int options)
+{
+  if (vk_side != 0) return waitid((idtype_t) idtype, (id_t) id, info, options);
+  /* only the plain "reap this pid" form is translated; everything else is a wait the library has no business making */
+  if (idtype == P_PID && (options & WEXITED) && !(options & WNOWAIT)) {
+    int st = 0;
+    pid_t r = vk_waitpid((pid_t) id, &st, options & WNOHANG);
+    if (r < 0) return -1;
+    siginfo_t *si = info;
+    if (si) {
+      memset(si, 0, sizeof *si);
+      if (r > 0) {
+        si->si_pid = r;
+        si->si_signo = SIGCHLD;
+        si->si_code = WIFEXITED(st) ? CLD_EXITED : CLD_KILLED;
+        si->si_status = WIFEXITED(st) ? WEXITSTATUS(st) : WTERMSIG(st);
+      }
+    }
+    return 0;
+  }
+  return (int) vk_waitpid(-1, NULL, 0) < 0 ? -1 : 0;
+}
+int vk_kill(pid_t pid, int sig);
+int vk_killpg(int pgrp, int sig) { return vk_kill(pgrp > 0 ? -pgrp : 0, sig); }
+
 static int deliver_signal(struct vk_child *c, int sig)
 {
   int r = kill(c->pid, sig);
